@@ -20,11 +20,20 @@
                         10^10 bytes (ten-digit offsets); ANY spelling of a trailer dictionary with that /Root and no /Prev,
                         /XRefStm; plain white space around the startxref number; no '%' behind %%EOF; leading garbage
                         without `%PDF-`.
-   Not covered (Model/LoaderBytes.v header): xref streams, object streams, hybrid files, referenced /Length,
-   incremental updates — for those the abstraction is still produced by props/loaderlib.py and validated per case. *)
+   Spec/RenderXrefStm.v render_xrefstm objs X : bytes — the same objects with ONE unfiltered cross-reference STREAM
+                        (any /W widths <= 4, any /Index partition, any spelling of its dictionary); wf_xlayout d X
+                        (Proofs/LoaderBytesXstm.v): C13's side conditions (wide, wf_parts, xref_dict_ok), offsets fit
+                        the second field, in-use rows = the document's identifiers, no compressed-object rows.
+   Incremental updates (classic tables): Properties/C04b.v.
+   Not covered (Model/LoaderBytes.v header): FILTERED xref / object streams (the abstraction reports them as plain
+   objects: the decoders need the zlib oracle), object streams in a theorem (the abstraction recognises unfiltered
+   ones; the extracted model agrees with the real loader on them), hybrid files in a theorem, referenced /Length —
+   for those the abstraction is still produced by props/loaderlib.py and validated per case. *)
 From PV Require Import Model.Obj Model.XrefTab Model.Loader Model.LoaderBytes Spec.Spelling Spec.XrefEnc Spec.RenderClassic.
 From PV Require Import Proofs.XrefBase Proofs.ObjStream Proofs.ObjSpell Proofs.Loader Proofs.LoaderObjs Proofs.LoaderMain Proofs.LoaderDoc
-     Proofs.LoaderBytesBase Proofs.LoaderBytesObj Proofs.LoaderBytesSect Proofs.LoaderBytesMain Proofs.LoaderBytesEx.
+     Proofs.LoaderBytesBase Proofs.LoaderBytesObj Proofs.LoaderBytesSect Proofs.LoaderBytesMain Proofs.LoaderBytesEx
+     Proofs.XrefStm Proofs.LoaderBytesXstm Proofs.LoaderBytesXstmEx.
+From PV Require Import Spec.RenderXrefStm.
 Close Scope N_scope.
 
 (* THE END-TO-END THEOREM: for every document, every legal classic layout and both build profiles, the loader
@@ -50,6 +59,33 @@ Theorem C03b_abstract_rendered : forall rel d l,
   mkpdf true (N.of_nat (len (render_view (d_objs d) l))) (Some (N.of_nat (len (body (d_objs d) l))))
         (file_of rel (render_view (d_objs d) l)).
 Proof. exact abstract_rendered. Qed.
+
+(* THE SAME FOR THE CROSS-REFERENCE STREAM LAYOUT (no filter): any legal widths and /Index partition, any spelling of
+   the stream dictionary *)
+Theorem C03_bytes_xrefstm : forall rel d X,
+  wf_doc d -> wf_xlayout d X ->
+  exists c, load_bytes rel (render_xrefstm (d_objs d) X) = Loaded c (d_root d) /\
+            forall id, ctx_get c id = ctx_get (ctx_of (d_objs d)) id.
+Proof. exact load_bytes_xrefstm. Qed.
+
+Theorem C03b_xrefstm_is_layout : forall rel d X,
+  wf_doc d -> wf_xlayout d X ->
+  layout_of (d_objs d) (d_root d) (abstract_file rel (render_xrefstm (d_objs d) X))
+            (List.map (fun e => conv_ent (fillx (xot (d_objs d) X) e)) (parts_ents (xl_parts X))).
+Proof. exact xrefstm_layout_of. Qed.
+
+(* at the position of a written cross-reference stream object, in any buffer: IndirectP + XrefStreamP yield the rows
+   written (C13_stream_rt), /Root and /Prev as the dictionary says *)
+Theorem C03b_item_at_xstm : forall rel s c xid d p w0 w1 w2 size lo rest,
+  at_cur s c (render_obj (xid, OStream d (render_parts w0 w1 w2 p)) lo ++ rest) ->
+  wf_obj_k (fun _ => True) (xid, OStream d (render_parts w0 w1 w2 p)) lo ->
+  wide w0 w1 w2 -> wf_parts w0 w1 w2 p -> xref_dict_ok d size (Some (parts_index p)) w0 w1 w2 ->
+  exists nx, item_at rel s c =
+             (IXStm xid (List.map conv_ent (parts_ents p)) (dict_get d key_Root) (dict_usize d key_Prev), nx).
+Proof. exact item_at_xstm. Qed.
+
+Theorem C03b_xrefstm_nonvacuous : wf_doc ex_doc /\ wf_xlayout ex_doc ex_xlayout.
+Proof. exact (conj ex_wf_doc ex_wf_xlayout). Qed.
 
 (* ---------- the per-offset facts (each for arbitrary surrounding bytes) ---------- *)
 (* the header scan skips garbage that does not contain the magic; HeaderP cannot fail behind it *)
@@ -104,6 +140,10 @@ Proof. exact ex_computed. Qed.
 
 Print Assumptions C03_bytes_classic.
 Print Assumptions C03b_abstraction_is_layout.
+Print Assumptions C03_bytes_xrefstm.
+Print Assumptions C03b_xrefstm_is_layout.
+Print Assumptions C03b_item_at_xstm.
+Print Assumptions C03b_xrefstm_nonvacuous.
 Print Assumptions C03b_abstract_rendered.
 Print Assumptions C03b_magic_found.
 Print Assumptions C03b_header_found.
